@@ -187,7 +187,11 @@ DedupWake(p) ==
   /\ "DedupWaitCtx" \notin KF
   /\ act[p].pc = "dwait" /\ exec[act[p].wait].fin
   /\ SlotFree /\ Take
-  /\ act' = [act EXCEPT ![p].pc = "fin", ![p].err = exec[act[p].wait].err]
+  \* a task named on the command line that shared the execution started by an indirect caller reports the
+  \* bare exit-status error of that execution like a failure of its own (RunTask, after startExecution)
+  /\ LET e == exec[act[p].wait].err
+         e2 == IF ~act[p].ind /\ e.k = "exit" /\ ~e.w THEN Wrap(e) ELSE e
+     IN act' = [act EXCEPT ![p].pc = "fin", ![p].err = e2]
   /\ UNCHANGED <<exec, cancelled, calls, root, mvars>>
 
 \* pinned code: <-otherExecutionCtx.Done(); return nil
